@@ -478,13 +478,23 @@ class Enc:
             else:
                 leaves.append(self.num(float(x)))
 
+        def tname(gi) -> str:
+            if "geometries" in gi:
+                return gi["type"] + "(" + ";".join(tname(g) for g in gi["geometries"]) + ")"
+            return gi["type"]
+
+        def walk_gi(gi):
+            if "geometries" in gi:
+                layout.append(len(gi["geometries"]))
+                for g in gi["geometries"]:
+                    walk_gi(g)
+            else:
+                walk(gi["coordinates"])
+
         gi = o.json
-        walk(gi.get("coordinates", [walk_geoms(g) for g in gi.get("geometries", [])]))
-        return f"{self.crs(o.crs)} {o.geom_type} {list_s(layout)} {list_s(leaves)}"
-
-
-def walk_geoms(g):
-    return g.get("coordinates", ())
+        assert gi["type"] == o.geom_type
+        walk_gi(gi)
+        return f"{self.crs(o.crs)} {tname(gi)} {list_s(layout)} {list_s(leaves)}"
 
 
 def attr_names(o) -> str:
@@ -652,10 +662,12 @@ def corr_family(R: Run, fam: Family, tokenize, max_pairs: Optional[int] = None):
                + ("|trivial" if i == j else ""))
 
 
-def part_b(R: Run):
+def build_families(quick: bool, E: "Enc") -> dict:
+    """The families of near-identical values of every type (deterministic: the same call in another interpreter
+    builds the same values in the same order)."""
     import numpy as np
+    import shapely
     from affine import Affine
-    from dask.base import tokenize
 
     from odc.geo import geom
     from odc.geo.crs import CRS
@@ -666,9 +678,6 @@ def part_b(R: Run):
     from odc.geo.roi import Tiles, VariableSizedTiles
     from odc.geo.types import XY, Index2d, Resolution, Shape2d, xy_
     import pyproj
-
-    E = Enc()
-    quick = R.quick
 
     # --- CRS values in several spellings (real cache state, read back field by field)
     wkt = pyproj.CRS.from_epsg(4326).to_wkt()
@@ -832,11 +841,49 @@ def part_b(R: Run):
             geom.multiline([[(0, 0), (1, 1)], [(2, 2), (3, 3)]], crs_vals[1]),
             geom.multiline([[(0, 0), (1, 1), (2, 2)], [(3, 3), (4, 4)]], crs_vals[1]),
             geom.multiline([[(0, 0), (1, 1)], [(2, 2), (3, 3), (4, 4)]], crs_vals[1])]
+    # every shapely type reachable from the API: rings (.exterior/.interiors/.boundary), multi-geometries,
+    # collections (multigeom, GeoBox.outline), empty geometries, 3-D coordinates
+    poly_h = geom.polygon([(0, 0), (0, 4), (4, 4), (4, 0), (0, 0)], crs_vals[1], [(1, 1), (2, 1), (2, 2), (1, 1)])
+    gms += [poly_h, poly_h.exterior, poly_h.interiors[0], poly_h.boundary, geom.box(0, 0, 1, 1, crs_vals[1]).boundary,
+            geom.box(0, 0, 1, 1, crs_vals[1]).exterior, geom.line([(0, 0), (0, 4), (4, 4), (4, 0), (0, 0)], crs_vals[1]),
+            geom.Geometry(shapely.LinearRing([(0, 0), (0, 4), (4, 4), (4, 0)]), crs_vals[4]),
+            geom.multipolygon([[[(0, 0), (0, 1), (1, 1), (0, 0)]], [[(5, 5), (6, 5), (6, 6), (5, 5)]]], crs_vals[1]),
+            geom.multipolygon([[[(0, 0), (0, 1), (1, 1), (0, 0)]]], crs_vals[1]),
+            geom.multigeom([geom.point(1, 2, crs_vals[1]), geom.line([(0, 0), (1, 1)], crs_vals[1])]),
+            geom.multigeom([geom.line([(0, 0), (1, 1)], crs_vals[1]), geom.point(1, 2, crs_vals[1])]),
+            geom.multigeom([geom.point(1, 2, crs_vals[1]), geom.point(0, 0, crs_vals[1])]),
+            geom.Geometry(shapely.GeometryCollection([shapely.Point(1, 2), shapely.LinearRing([(0, 0), (0, 1), (1, 1)])]),
+                          crs_vals[1]),
+            geom.Geometry(shapely.GeometryCollection([shapely.Point(1, 2), shapely.LineString([(0, 0), (0, 1), (1, 1),
+                                                                                               (0, 0)])]), crs_vals[1]),
+            GeoBox((3, 4), Affine(*A0), crs_vals[1]).outline(notch=0),
+            GeoBox((3, 4), Affine(*A0), crs_vals[1]).extent.exterior]
+    for c in (crs_vals[1], None):
+        gms += [geom.Geometry(shapely.Point(), c), geom.Geometry(shapely.Polygon(), c),
+                geom.Geometry(shapely.LineString(), c), geom.Geometry(shapely.MultiPoint([]), c),
+                geom.Geometry(shapely.GeometryCollection(), c), geom.Geometry(shapely.MultiPolygon([]), c)]
+    gms += [geom.Geometry(shapely.Point(1, 2, 3), crs_vals[1]), geom.Geometry(shapely.Point(1, 2, 0), crs_vals[1]),
+            geom.Geometry(shapely.Point(1, 2, 4), crs_vals[1]),
+            geom.Geometry(shapely.LineString([(0, 0, 1), (1, 1, 2)]), crs_vals[1]),
+            geom.Geometry(shapely.LineString([(0, 0, 1), (1, 1, 3)]), crs_vals[1]),
+            geom.Geometry(shapely.Polygon([(0, 0, 1), (0, 1, 1), (1, 1, 1), (0, 0, 1)]), crs_vals[1])]
     fams.append(Family("Geometry", "geom", gms, E.geom))
+    fam_crs = Family("CRS", "bbox", some_crs + [CRS(some_crs[0]), pickle.loads(pickle.dumps(some_crs[2]))],
+                     lambda c: f"{E.crs(c)} i0 i0 i1 i1")
+    return {"fams": fams, "fam_crs": fam_crs, "gcps": gcps,
+            "attr_objs": (xs[0], Resolution(1), Index2d(1, 2), Shape2d(1, 2), bbs[0], gms[0], gbs[0], gcps[0], m1,
+                          tls[0], vts[0], gbt_items[0], bins[0], gs_items[0], some_crs[0])}
+
+
+def part_b(R: Run):
+    from dask.base import tokenize
+
+    E = Enc()
+    B = build_families(R.quick, E)
+    fams, gcps = B["fams"], B["gcps"]
 
     # --- attribute sets by introspection: a field added to a value type cannot escape the model
-    for o in (xs[0], Resolution(1), Index2d(1, 2), Shape2d(1, 2), bbs[0], gms[0], gbs[0], gcps[0], m1, tls[0], vts[0],
-              gbt_items[0], bins[0], gs_items[0], some_crs[0]):
+    for o in B["attr_objs"]:
         R.corr(f"c19 fields {type(o).__name__}", lambda o=o: attr_names(o), sig="fields")
 
     # --- correspondence (model vs code, all pairs) and the property oracle (all pairs and triples)
@@ -855,9 +902,61 @@ def part_b(R: Run):
         R.corr(f"c19 clone gcp 9999 {E.gcp(g)}", f, sig="clone|gcp")
 
     # bare CRS objects as values (in-process; the cache histories are part (a))
-    fam_crs = Family("CRS", "bbox", some_crs + [CRS(some_crs[0]), pickle.loads(pickle.dumps(some_crs[2]))],
-                     lambda c: f"{E.crs(c)} i0 i0 i1 i1")
-    judge_family(R, fam_crs, tokenize)
+    judge_family(R, B["fam_crs"], tokenize)
+    part_xproc(R)
+
+
+XPROC = str(Path(__file__).with_name("c19_xproc.py"))
+
+
+def part_xproc(R: Run):
+    """eq / hash / token / pickle ACROSS interpreters with different string-hash seeds: the values are used
+    (hashed, tokenized) and pickled in one process, unpickled in another and compared with locally built ones."""
+    import shutil
+    import tempfile
+
+    d = tempfile.mkdtemp(prefix="c19x-")
+    try:
+        path = os.path.join(d, "values.pkl")
+        s1 = R.rng.randint(1, 10 ** 6)
+        outs = []
+        for mode, seed in (("dump", s1), ("load", s1 + 1)):
+            env = dict(os.environ)
+            env["PYTHONPATH"] = os.pathsep.join(p for p in sys.path if p)
+            env["PYTHONHASHSEED"] = str(seed)
+            p = subprocess.run([sys.executable, XPROC, mode, path], capture_output=True, text=True, env=env, timeout=600)
+            if p.returncode != 0:
+                R.oracle(False, f"xproc-{mode}-raises", {"xproc": True, "mode": mode},
+                         f"{mode} of the value families in a fresh interpreter failed: {p.stderr[-600:]}")
+                return
+            outs.append(json.loads(p.stdout[p.stdout.index("{"):]))
+    finally:
+        shutil.rmtree(d, ignore_errors=True)
+    res = outs[1]
+    seeds = {"dump_seed": s1, "load_seed": s1 + 1}
+    for it in res["items"]:
+        t = it["family"]
+        case = {"xproc": True, "family": t, "i": it["i"], "obj": it["obj"], **seeds}
+        if "raises" in it:
+            R.oracle(False, f"{t}-xproc-pickle-raises", case,
+                     f"{it['obj']} cannot be pickled in one interpreter and unpickled in another: {it['raises']}")
+            continue
+        R.oracle(it["eq"], K2 if it["k2"] else f"{t}-xproc-pickle-eq", case,
+                 f"{it['obj']} pickled in one interpreter and unpickled in another is not equal to the same value "
+                 "built there")
+        R.oracle(it["tok"], f"{t}-xproc-token", case,
+                 f"{it['obj']} unpickled in another interpreter has a different dask token than the same value built there")
+        if it["eq"] and it["hash"] is not None:
+            R.oracle(it["hash"], f"{t}-xproc-eq-hash", case,
+                     f"{it['obj']} (hashed, then pickled) unpickled in an interpreter with another PYTHONHASHSEED equals "
+                     "the same value built there but hashes differently")
+    for pf in res["pair_failures"]:
+        t = pf["family"]
+        R.oracle(False, K1 if pf["k1"] else f"{t}-xproc-eq-hash", {"xproc": True, **pf, **seeds},
+                 f"received {pf['a']} == local {pf['b']} but their hashes differ")
+    for t, n in res["pairs"].items():
+        R.oracle(True, f"{t}-xproc-eq-hash", {"xproc": True, "family": t, "equal_pairs": n}, "", trivial=n == 0)
+        R.count(f"xproc-equal-pairs:{t}", n)
 
 
 def run(R: Run):
